@@ -205,8 +205,11 @@ pub fn feature_count(u: &Universe, p: &Problem) -> (usize, Vec<&'static str>) {
     if u.packages.iter().any(|p| p.cands.iter().any(|c| c.excluded.is_some())) {
         f.push("exclusion");
     }
-    if u.packages.iter().any(|p| p.locked.is_some()) {
+    if u.packages.iter().any(|p| p.has_lock()) {
         f.push("lock");
+    }
+    if u.packages.iter().any(|p| p.lock_gone) {
+        f.push("lock-gone");
     }
     if !p.soft.is_empty() {
         f.push("soft");
